@@ -8,7 +8,7 @@ CHECKS = {
  "C17": ("epsim", "exploration",
          "deterministic simulation: seeded driver-behaviour scripts (partial/zero/EINTR/EAGAIN/hard) on scripted source and sink stubs, stream-cursor reference model",
          "Seeded exploration of endpoint API calls on one shared stream with per-call fault scripts on both drivers; every call is checked against a two-cursor stream model (exact count, order, no loss/duplication, error provenance, prefix rule, step budget). Sampling, not proof; the property's exhaustive script enumeration is not claimed.",
-         "Trusts the scripted driver stubs and the stream model in sim/epsim.cpp; getbuffer extension not simulated (no implementer in the repo).", "4.1"),
+         "Trusts the scripted driver stubs and the stream model in sim/epsim.cpp; the getbuffer extension is simulated on the source side (lending sources); the sink side has no implementer and cannot have one (DESIGN.md section 8).", "4.1"),
  "C01": ("regsim", "exploration",
          "deterministic simulation: seeded register-table histories (typed set/get with boundary values, bad handles, all float classes) over generated tables with memory- and callback-backed areas; storage observed at the RegisterArea seam against a byte-wise reference model",
          "Partial claim. Every typed operation of a seeded history is checked for refinement against an independent register model (acceptance, refusal class, backing words in table byte order, bit-identical read-back, nothing changed and no callback write on refusal, 'no such entry' for every bad handle incl. one-past-the-end). The exhaustive 16-bit value enumeration of the quantifier is not claimed.",
@@ -111,7 +111,7 @@ def main():
                     for h, p in sorted(engines.items())],
         "checks": checks,
         "not_applicable": [{"property_id": k, "reason": v} for k, v in sorted({**NA, **PENDING}.items())],
-        "notes": "One technique family: deterministic simulation with fault injection. ./check <id> rebuilds incrementally from /repo's working tree. Exit 0 held, 1 VIOLATION line, 2 harness error. known-findings.json lists recorded/fixed defects.",
+        "notes": "One technique family: deterministic simulation with fault injection. ./check <id> rebuilds incrementally from /repo's working tree, in two builds (assertions compiled in; -DNDEBUG release-build twin, a fifth of the runs) and runs both. Exit 0 held, 1 VIOLATION line, 2 harness error. known-findings.json lists recorded/fixed defects.",
     }
     json.dump(m, open(os.path.join(ROOT, "MANIFEST.json"), "w"), indent=1)
     open(os.path.join(ROOT, "MANIFEST.json"), "a").write("\n")
